@@ -245,6 +245,17 @@ def run(ctx):
                 ctx.violation(dict(kind="sweep_repeat", tol=tol, halfway=half), f"step {bad} differs",
                               replay=dict(n=n, tol=tol, halfway=half))
 
+    # ---- large samples (an implementation may take another compute path above a size threshold) --------
+    for size in (((4096,), (2048, 2)) if quick else ((4096,), (2048, 2), (16384,), (64, 64, 4))):
+        for cs in (1, 2, 5, 45):
+            for levy in ("none", "space-time"):
+                bad = sweep_repeat(48, cs, levy, size=size)
+                ctx.case(("sweep-large", str(size), cs, levy), sample=dict(sweep=48, cache_size=cs, levy=levy, size=list(size)))
+                if bad is not None:
+                    ctx.violation(dict(kind="sweep_repeat", cache_size=cs, levy=levy, size="large"),
+                                  f"step {bad} of 48 returned a different tensor on the backward sweep (sample shape {size})",
+                                  replay=dict(n=48, cache_size=cs, levy=levy, size=list(size)))
+
     # ---- through the wrappers ---------------------------------------------------------------------
     for rep in range(3 if quick else 30):
         for kind in ("path", "tree", "tree_w1", "reverse"):
@@ -279,6 +290,11 @@ def replay(path):
     if isinstance(r, dict) and str(r.get("kind", "")).startswith("harvest-"):
         from harness import harvest_run
         return harvest_run.replay(r)
+    if "cfg" not in r and "n" in r and "cache_size" in r and "levy" in r:
+        bad = sweep_repeat(r["n"], r["cache_size"], r["levy"], size=tuple(r["size"]) if "size" in r else (2,),
+                           tol=r.get("tol", 0.0), halfway=r.get("halfway", False), drift=r.get("drift", False))
+        print("first differing step:", bad)
+        return 0 if bad is None else 1
     if "cfg" not in r:
         print("re-run the check for this kind")
         return 0
